@@ -548,6 +548,59 @@ func jwsReplay(args []string) {
 		}
 
 		// ---- C16 ------------------------------------------------------------------------------
+		if c.Mod == "x_plus_p" && c.Kt != "p521" {
+			// a point of the curve whose x is small enough for x + p to fit the width (nobody's key, but a public key)
+			if c.Shape != "normal" {
+				return
+			}
+
+			curve := curveOf(c.Kt)
+			prm := curve.Params()
+			w := (prm.BitSize + 7) / 8
+			a := big.NewInt(-3)
+
+			if c.Kt == "k1" {
+				a = big.NewInt(0)
+			}
+
+			for xi := int64(1); xi < 2000; xi++ {
+				x := big.NewInt(xi)
+				rhs := new(big.Int).Exp(x, big.NewInt(3), prm.P)
+				rhs.Add(rhs, new(big.Int).Mul(a, x)).Add(rhs, prm.B).Mod(rhs, prm.P)
+
+				y := new(big.Int).ModSqrt(rhs, prm.P)
+				if y == nil {
+					continue
+				}
+
+				crv := map[string]string{"p256": "P-256", "p384": "P-384", "k1": "secp256k1"}[c.Kt]
+				enc := func(v *big.Int) string { return b64(v.FillBytes(make([]byte, w))) }
+				genuine := fmt.Sprintf(`{"kty":"EC","crv":%q,"x":%q,"y":%q}`, crv, enc(x), enc(y))
+				shifted := fmt.Sprintf(`{"kty":"EC","crv":%q,"x":%q,"y":%q}`, crv, enc(new(big.Int).Add(x, prm.P)), enc(y))
+
+				var g, sft jwsutil.JWK
+
+				if e := g.UnmarshalJSON([]byte(genuine)); e != nil {
+					fail("jwk-round-trip", "a point of the curve is refused: "+e.Error(), "accepted", nil, genuine)
+					return
+				}
+
+				instances++
+				col.sample(map[string]interface{}{"case": c, "jwk": shifted})
+
+				if e := sft.UnmarshalJSON([]byte(shifted)); e == nil {
+					fail("modified-jwk-accepted", "x + p (the same residue, not a field element) is read as a key: one key, two JWKs, two commitments", "rejected",
+						map[string]interface{}{"read_accepted": true}, shifted)
+				}
+
+				return
+			}
+
+			fail("no-instance", "no point with a small x found", nil, nil, nil)
+
+			return
+		}
+
 		key, err := shapedKey(pool, c.Kt, c.Shape)
 		if err != nil {
 			fail("no-instance", err.Error(), nil, nil, nil)
@@ -618,6 +671,10 @@ func jwsReplay(args []string) {
 			mod.X = "+" + j.X[1:]
 		case "x_short_shadowed":
 			mod.X = b64(x[1:])
+		case "x_plus_p":
+			// (P-521: every x + p fits the 66 bytes)
+			pk := key.Pub.(*ecdsa.PublicKey)
+			mod.X = b64(new(big.Int).Add(pk.X, pk.Curve.Params().P).FillBytes(make([]byte, w)))
 		default:
 			fatalf("mod %s", c.Mod)
 		}
